@@ -83,6 +83,8 @@ def render(t, uni, backend, style=None, md=None):
             return "%s[%d]" % (r(ch[0]), t["n"])
         if k == "DictGet":
             return "%s[%r]" % (r(ch[0]), t["a"])
+        if k == "UserFn" and t["b"] == "method":
+            return "%s.%s(%s)" % (r(ch[0]), t["a"], ", ".join(r(c) for c in ch[1:]))
         if k in ("Math", "UserFn"):
             return "%s(%s)" % (t["a"], ", ".join(r(c) for c in ch))
         if k == "Root":
